@@ -29,7 +29,7 @@ YOUR TASK: produce ONE realistic change to the library source (a small patch, ty
  (c) the violation needs something SPECIFIC to manifest — a particular interleaving of two threads, a crash or fault at a particular point, a multi-step sequence of operations, an unusual input (a boundary length, a value at a table-width threshold, a key that collides), or two cooperating sites that each look fine alone — NOT something every use would hit immediately,
  (d) it looks like a plausible slip a developer could make (an off-by-one in a cursor, `<` for `<=`, a forgotten update of one field, a check moved after the action it guards, reading a stale value, a dropped `wrapping_`/mask, using the wrong one of two similar variables), not sabotage and not a change to comments, tests, build files or public signatures.
 {extra}
-Then write a DEMONSTRATION: a small Rust integration test file placed at {wt}/tests/seeded_{p['id'].lower()}_demo.rs (using only the library's public API and std; for concurrency properties you may use std::thread with explicit barriers/spin to force the interleaving as far as possible, or demonstrate the broken invariant sequentially if it can be reached sequentially) that FAILS with your change and PASSES on the unchanged library. Verify both: run it with your patch applied (must fail), then `git stash` the source change (keep the demo file), run it again (must pass), then `git stash pop`. The demo must be deterministic.
+Then write a DEMONSTRATION: a small Rust integration test file placed at {wt}/tests/seeded_{p['id'].lower()}_demo.rs (using only the library's public API and std; for concurrency properties you may use std::thread with explicit barriers/spin to force the interleaving as far as possible, or demonstrate the broken invariant sequentially if it can be reached sequentially) that FAILS with your change and PASSES on the unchanged library. Verify both: run it with your patch applied (must fail), then save your change with `git diff -- src > {out}/patch.diff` and revert it with `git apply -R {out}/patch.diff` (keep the demo file), run the demo again (must pass), then re-apply with `git apply {out}/patch.diff`. NEVER use `git stash`: the stash is shared with other people's worktrees of the same repository and entries get mixed up. The demo must be deterministic.
 
 DELIVER in {out}/ (create the directory):
  - patch.diff : `git diff` of the library source change ONLY (not the demo test file), applying cleanly with `git apply` to the commit your worktree is at,
